@@ -369,7 +369,7 @@ fn run_d<T: Dur>(prop: DProp, tr: &DTrace, st: &mut Stats) -> Result<(), Viol> {
                 }
                 if *restored && is_node {
                     let json = side.to_json();
-                    if crate::framework::has_nonfinite_field(&side.dbg()) {
+                    if crate::framework::nonfinite_state(&side.dbg(), &json, side.observe().into_iter().map(|s| s.1)) {
                         st.bump("probe.checkpoint_nonfinite_skipped");
                     } else {
                         st.bump("fault.restored_merge_operand");
@@ -450,7 +450,7 @@ fn run_d<T: Dur>(prop: DProp, tr: &DTrace, st: &mut Stats) -> Result<(), Viol> {
                         return Err(Viol::new(format!("{}:serialize_modifies", name), format!("op {}: serialising changed the state", oi)));
                     }
                 }
-                if crate::framework::has_nonfinite_field(&dbg) {
+                if crate::framework::nonfinite_state(&dbg, &json, obs.iter().map(|s| s.1)) {
                     st.bump("probe.checkpoint_nonfinite_skipped");
                     continue;
                 }
@@ -533,7 +533,7 @@ fn run_d<T: Dur>(prop: DProp, tr: &DTrace, st: &mut Stats) -> Result<(), Viol> {
             DOp::Migrate { times } => {
                 for _ in 0..*times {
                     let json = node.to_json();
-                    if crate::framework::has_nonfinite_field(&node.dbg()) {
+                    if crate::framework::nonfinite_state(&node.dbg(), &json, node.observe().into_iter().map(|s| s.1)) {
                         st.bump("probe.checkpoint_nonfinite_skipped");
                         break;
                     }
